@@ -138,6 +138,52 @@ def run_part(prop, seed, budget):
         if r != ("ok", g("Palette")({g("Color").BLUE: ["a", "b"]})): _fail(failures, "mapping-key-types", "mapping-key-not-built-with-the-key-type", where="field of a dataclass", got=r)
         r = _out(lambda: deserialize(Dict[g("Color"), int], {"green": 1}))
         if r[0] != "invalid": _fail(failures, "mapping-key-types", "invalid-key-accepted", got=r)
+    if prop == "C02":
+        # fall_back_on_default concerns fields that have a default: on a class without any, the errors are those reported without the option (aggregate fields included)
+        asrc = ["from dataclasses import dataclass, field", "from typing import *", "from apischema.metadata import flatten, properties, fall_back_on_default", "",
+                "@dataclass", f"class AIn{i}:", "    b: int", "    c: int", "",
+                "@dataclass", f"class AFl{i}:", "    a: int", f"    inner: AIn{i} = field(metadata=flatten)", "",
+                "@dataclass", f"class APa{i}:", "    a: int", "    pats: Dict[str, int] = field(metadata=properties(pattern=r'^p_'))", "",
+                "@dataclass", f"class AAd{i}:", "    a: int", "    rest: Dict[str, int] = field(metadata=properties)", "",
+                "@dataclass", f"class AFb{i}:", "    a: int", f"    inner: AIn{i} = field(metadata=flatten | fall_back_on_default)", ""]
+        ag = vars(build_module(asrc, f"corners8agg_{seed}"))
+        cases = [(f"AFl{i}", {"a": "x", "b": "y"}), (f"AFl{i}", {"a": 1, "b": "y", "c": 2}), (f"AFl{i}", {"a": 1, "c": None}), (f"APa{i}", {"a": "x", "p_1": "y", "p_2": 2}), (f"APa{i}", {"a": 1, "p_1": []}),
+                 (f"AAd{i}", {"a": "x", "k": "y"}), (f"AAd{i}", {"a": 1, "k": None, "l": 1}), (f"AFb{i}", {"a": 1, "b": "y", "c": 2}), (f"AFl{i}", {"a": 1, "b": 1, "c": 2})]
+        for tn, d in cases:
+            n += 1; distinct.add(case_hash("c8-required-aggregate", tn, repr(d))); hist["required-aggregate-under-fall-back"] += 1
+            ref = _out(lambda: deserialize(ag[tn], d)); got = _out(lambda: deserialize(ag[tn], d, fall_back_on_default=True))
+            canon = lambda r: (r[0], sorted(map(repr, r[1])) if r[0] == "invalid" else r[1])
+            if canon(ref) != canon(got): _fail(failures, "required-aggregate-under-fall-back", "crash:" + got[1].split(":")[0] if got[0] == "crash" else "errors-of-a-required-field-lost-under-fall_back_on_default", type=tn, datum=d, got=got, expected=ref)
+    if prop == "C19":
+        # a generic class published specialised: the resolvers that mention the type variable are typed like the plain field that does, and execute like serialize
+        import graphql
+        from apischema.graphql import graphql_schema
+        gsrc = ["from dataclasses import dataclass", "from typing import *", "from apischema import type_name", "from apischema.graphql import resolver", "", "T = TypeVar('T')", "CALLS = []",
+                "@dataclass", f"class GItem{i}:", "    label: str", "    weight_kg: int", "",
+                f"@type_name(graphql=lambda cls, arg: arg.__name__.capitalize() + 'Box{i}')", "@dataclass", f"class GBox{i}(Generic[T]):", "    content: T",
+                "    @resolver", "    def unwrap(self) -> T: return self.content",
+                "    @resolver", "    def pick(self, among: List[T]) -> Optional[T]:", "        CALLS.append(among)", "        return self.content if self.content in among else None", "",
+                f"def int_box() -> GBox{i}[int]: return GBox{i}(3)", f"def item_box() -> GBox{i}[GItem{i}]: return GBox{i}(GItem{i}('anvil', 50))", ""]
+        gg = vars(build_module(gsrc, f"corners8gql_{seed}"))
+        r = _out(lambda: graphql_schema(query=[gg["int_box"], gg["item_box"]]))
+        n += 1; distinct.add(case_hash("c8-generic-resolvers", "schema")); hist["resolvers-of-a-specialised-generic-class"] += 1
+        if r[0] != "ok" or graphql.validate_schema(r[1]): _fail(failures, "resolvers-of-a-specialised-generic-class", "crash:" + str(r[1]).split(":")[0] if r[0] != "ok" else "schema-invalid", got=str(r[1])[:200])
+        else:
+            sch = r[1]
+            for box in (f"IntBox{i}", f"Gitem{i}Box{i}"):
+                n += 1; distinct.add(case_hash("c8-generic-resolvers", box)); hist["resolvers-of-a-specialised-generic-class"] += 1
+                tm = sch.type_map.get(box)
+                if tm is None: _fail(failures, "resolvers-of-a-specialised-generic-class", "specialisation-not-published-under-its-name", name=box, types=sorted(k for k in sch.type_map if "Box" in k)); continue
+                c_, u_, p_ = (str(tm.fields[k].type) for k in ("content", "unwrap", "pick"))
+                if u_ != c_ or p_ + "!" != c_: _fail(failures, "resolvers-of-a-specialised-generic-class", "resolver-not-typed-by-the-specialisation", box=box, content=c_, unwrap=u_, pick=p_)
+                el = str(tm.fields["pick"].args["among"].type)
+                if "JSON" in el or "JSON" in sch.type_map: _fail(failures, "resolvers-of-a-specialised-generic-class", "resolver-argument-not-typed-by-the-specialisation", box=box, among=el)
+            n += 1; hist["resolvers-of-a-specialised-generic-class"] += 1
+            res = graphql.graphql_sync(sch, "{intBox{content unwrap pick(among: [1, 3])}}")
+            if res.errors or res.data != {"intBox": {"content": 3, "unwrap": 3, "pick": 3}}: _fail(failures, "resolvers-of-a-specialised-generic-class", "execution-differs-from-serialize", errors=[str(e) for e in res.errors or []][:2], data=res.data)
+            gg["CALLS"].clear()
+            res = graphql.graphql_sync(sch, '{intBox{pick(among: ["a"])}}')
+            if not res.errors or gg["CALLS"]: _fail(failures, "resolvers-of-a-specialised-generic-class", "invalid-argument-reached-the-resolver", errors=[str(e) for e in res.errors or []][:2], calls=repr(gg["CALLS"]))
     if prop == "C04":
         # the image of a field is the image of its value under the same options, at any depth: every option of serialize reaches nested objects
         A, P = g("Address"), g("Person")
